@@ -155,8 +155,10 @@ var writeFlags = []int{os.O_WRONLY, os.O_RDWR, os.O_RDWR | os.O_CREATE, os.O_WRO
 	os.O_RDWR | os.O_CREATE | os.O_EXCL, os.O_WRONLY | os.O_APPEND, os.O_RDWR | os.O_TRUNC, os.O_WRONLY | os.O_CREATE | os.O_APPEND}
 
 type OpGen struct {
+	Orig      map[string]Entry // the initial tree: lets metadata operations return to original values
 	Mutating  []string // kinds to draw mutators from
 	ReadOnly  bool     // include read-only operations
+	Focus     string   // when set, most operations name this path (same-path interplay)
 	Unclean   bool     // unclean spellings
 	Relative  bool     // relative spellings
 	NoSpecial bool     // no set-id / sticky bits, root owner only
@@ -210,7 +212,11 @@ func (g *OpGen) Gen(r *RNG, existing []string) Op {
 		kinds = readOnlyOps
 	}
 	k := r.Pick(kinds)
-	p := spell(r, g, pickPath(r, existing))
+	target := pickPath(r, existing)
+	if g.Focus != "" && r.Chance(3, 4) {
+		target = g.Focus
+	}
+	p := spell(r, g, target)
 	switch k {
 	case "creat":
 		return Op{k, []string{p, genContent(r)}}
@@ -228,6 +234,10 @@ func (g *OpGen) Gen(r *RNG, existing []string) Op {
 		return Op{k, []string{genLinkTarget(r, p, existing), p}}
 	case "chmod":
 		m := []uint32{0o644, 0o600, 0o755, 0o700, 0o640}[r.Intn(5)]
+		if e, ok := g.Orig[path.Clean(p)]; ok && e.Kind != "link" && r.Chance(2, 5) {
+			// back to the original mode (set-id bits included): restore paths that see "nothing to do"
+			return Op{k, []string{p, fmt.Sprint(e.Mode)}}
+		}
 		if !g.NoSpecial && r.Chance(1, 3) {
 			m |= []uint32{0o4000, 0o2000, 0o1000}[r.Intn(3)]
 		}
@@ -236,8 +246,14 @@ func (g *OpGen) Gen(r *RNG, existing []string) Op {
 		if g.NoSpecial {
 			return Op{k, []string{p, "0", "0"}}
 		}
+		if e, ok := g.Orig[path.Clean(p)]; ok && r.Chance(1, 4) {
+			return Op{k, []string{p, itoa(e.UID), itoa(e.GID)}}
+		}
 		return Op{k, []string{p, itoa(uids[r.Intn(len(uids))]), itoa(gids[r.Intn(len(gids))])}}
 	case "chtimes":
+		if e, ok := g.Orig[path.Clean(p)]; ok && r.Chance(1, 4) {
+			return Op{k, []string{p, fmt.Sprint(e.MTime)}}
+		}
 		return Op{k, []string{p, fmt.Sprint(oldTime(r))}}
 	default:
 		return Op{k, []string{p}}
